@@ -3,7 +3,10 @@
     The calculus ([ModelWrite.derivable]) is our reading of which safe expressions produce a
     [&Write<_>]; it is validated rule by rule against rustc by /verif/probes/c13.  "Safe" means free of
     the [unsafe] keyword (a program that passes [#![forbid(unsafe_code)]]): implementing the safe trait
-    [Unlock] needs an [unsafe fn], which that lint rejects.  Composition with the barrier theorems
+    [Unlock] needs an [unsafe fn], which that lint rejects.  The constructors and projections of the
+    calculus are the functions a CLIENT crate can call ([pub] or trait methods, [ModelWrite.is_public]):
+    a private / [pub(crate)] helper returning [&Write<_>] is no source of [Write] by itself; the public
+    functions that call it are judged by their own signature, with the helper's body facts inlined.  Composition with the barrier theorems
     (C06) and C01 is the coordinator's. *)
 Require Import Coq.Strings.String Coq.Lists.List Coq.Bool.Bool.
 Require Import GAApi.Syntax GAApi.ModelTypes GAApi.ModelWrite GAApi.ModelStatic GAApi.WriteProofs.
